@@ -66,7 +66,7 @@ func runC12(c *sim.Ctx) {
 	execBudget := 30000 // faulted executions per run; beyond it every operation is sampled at ~24 positions
 	if c.Tier == "thorough" {
 		maxK = 4000
-		execBudget = 150000
+		execBudget = 90000
 	}
 
 	open := func(m *pg.Mem) (h handle, err error) {
@@ -222,12 +222,12 @@ func prefixOf(got, full [][]sq.Val) (bool, int) {
 func init() {
 	sim.Register(&sim.Prop{
 		ID: "C12", Engine: "E-PAGE", Level: "fault_enumeration", Fn: runC12, NewEnv: NewEnv,
-		Runs: map[string]int{"quick": 256, "thorough": 3200},
+		Runs: map[string]int{"quick": 256, "thorough": 2400},
 		Rule: "per run: a database written by real SQLite through a drawn history (page size 512/1024/4096, rowid + WITHOUT ROWID tables, indexes, overflow rows) is served from a simulated disk; for EVERY read operation (8 high-level + low-level scans, keys drawn from stored values) first a fault-free execution (n reads), then one faulted execution for every k in 1..n (stride-sampled above 400/4000) x {I/O error, short read, b-tree page arriving with an invalid page type} x {transient, permanent}, plus lock failure; one run in five instead builds a well-formed database whose index disagrees with its table (entries without rows) and requires the index-ordered and equality selects to deliver the rows up to the first such entry and then an error; evaluations = faulted executions; a run is non-trivial when some operation performs >1 page read; distinct = distinct event logs",
 		Real: append([]string{"btree/record/schema/select code paths on the in-memory simulated disk"}, realAll...),
 		Stub: []string{"file pager replaced by pg.Mem (same copy semantics, same short-read-at-EOF behaviour); POSIX locks replaced by counters"},
 		Assumptions: []string{"a fault the reader can detect = pager returns an error (I/O error) or a zero-padded buffer with io.EOF (what mmap.ReaderAt does)", "operations that already fail fault-free (definitions sqlittle rejects) are skipped and counted"},
-		MaxRunSecs: 300,
+		MaxRunSecs: 1200, // a thorough run makes up to ~10^5 faulted executions; on a loaded machine that takes minutes
 		Vacuity: func(st map[string]int64, runs int, tier string) error {
 			fired := st["fault.read-error"] + st["fault.short-read"]
 			if st["fault.bad-page-type"] == 0 || st["probe.dangling-entry-reported"] == 0 {
